@@ -226,23 +226,23 @@ theorem wf_gt (ok : Char → Bool) (hok : ∀ c, ok c = true → isQueryC c = tr
   exact ⟨(queryC_gt c h2).1, (queryC_gt c h2).2.1⟩
 
 /-- **the standard parser on a generated URL** -/
-theorem assembled_split (g : GenFacts) (sch auth pre path suffix : Text) (q : Query) (a : Text)
+theorem assembled_split (g : GenFacts) (sch auth pre path suffix : Text) (q : Query) (a : Text) (tr : Bool)
     (ho : OriginOk sch auth) (hpre : BodyOk pre) (hlead : ∃ r, path = '/' :: r)
     (hp : pctWF isPathC path = true) (hs : pctWF isPathC suffix = true) :
-    urlsplit ((sch ++ colonSlashSlash ++ auth ++ pre) ++ path ++ suffix ++ qsOf q ++ fragOf a)
-      = some ⟨sch.map lowerC, auth, pre ++ path ++ suffix, (qsOpt q).getD [], (fragOpt a).getD []⟩ := by
+    urlsplit ((sch ++ colonSlashSlash ++ auth ++ pre) ++ path ++ suffix ++ qsOf q ++ fragOf a tr)
+      = some ⟨sch.map lowerC, auth, pre ++ path ++ suffix, (qsOpt q).getD [], (fragOpt a tr).getD []⟩ := by
   have hb := bodyOk_compose pre path suffix hpre hlead hp hs
-  have := urlsplit_assembled sch auth (pre ++ path ++ suffix) (qsOpt q) (fragOpt a) ho hb
+  have := urlsplit_assembled sch auth (pre ++ path ++ suffix) (qsOpt q) (fragOpt a tr) ho hb
     (fun t ht => wf_gt isQueryC (fun _ h => h) t (qsOpt_wf g q t ht))
-    (fun t ht c hc => (wf_gt isQueryC (fun _ h => h) t (fragOpt_wf g a t ht) c hc).1)
+    (fun t ht c hc => (wf_gt isQueryC (fun _ h => h) t (fragOpt_wf g a tr t ht) c hc).1)
   rw [← this, qsOf_eq, fragOf_eq]
   simp only [List.append_assoc]
 
 /-- the grammar of a whole generated URL: only RFC 3986 characters, every `%` followed by two hex digits -/
-theorem assembled_wf (g : GenFacts) (sch auth pre path suffix : Text) (q : Query) (a : Text)
+theorem assembled_wf (g : GenFacts) (sch auth pre path suffix : Text) (q : Query) (a : Text) (tr : Bool)
     (hsch : sch.all isSchemeChar = true) (hauth : pctWF isUrlC auth = true) (hpre : pctWF isPathC pre = true)
     (hp : pctWF isPathC path = true) (hs : pctWF isPathC suffix = true) :
-    pctWF isUrlC ((sch ++ colonSlashSlash ++ auth ++ pre) ++ path ++ suffix ++ qsOf q ++ fragOf a) = true := by
+    pctWF isUrlC ((sch ++ colonSlashSlash ++ auth ++ pre) ++ path ++ suffix ++ qsOf q ++ fragOf a tr) = true := by
   have hpu : ∀ t, pctWF isPathC t = true → pctWF isUrlC t = true :=
     fun t ht => pctWF_mono _ _ (fun c hc => pathC_urlC c (.inl hc)) t ht
   have hschw : pctWF isUrlC sch = true := by
@@ -262,7 +262,7 @@ theorem assembled_wf (g : GenFacts) (sch auth pre path suffix : Text) (q : Query
   · exact hpu _ hp
   · exact hpu _ hs
   · exact optPre_wf '?' (.inl (by decide)) _ (qsOpt_wf g q)
-  · exact optPre_wf '#' (.inr rfl) _ (fragOpt_wf g a)
+  · exact optPre_wf '#' (.inr rfl) _ (fragOpt_wf g a tr)
 
 theorem urlC_of_wf (t : Text) (h : pctWF isUrlC t = true) : ∀ c ∈ t, isUrlC c = true := by
   intro c hc
